@@ -14,15 +14,17 @@ package introspect
 import "verif/internal/model"
 
 var (
-	tString   = model.Named("String")
-	tBoolean  = model.Named("Boolean")
-	tType     = model.Named("__Type")
-	nn        = model.NonNull
-	listOf    = model.ListOf
-	nnList    = func(n string) *model.TypeRef { return nn(listOf(nn(model.Named(n)))) } // [X!]!
-	optList   = func(n string) *model.TypeRef { return listOf(nn(model.Named(n))) }     // [X!]
-	useLocs   = "Use `locations`."
-	falseDef  = func() *model.InputDef { return &model.InputDef{Name: "includeDeprecated", Type: tBoolean, HasDefault: true, Default: false} }
+	tString  = model.Named("String")
+	tBoolean = model.Named("Boolean")
+	tType    = model.Named("__Type")
+	nn       = model.NonNull
+	listOf   = model.ListOf
+	nnList   = func(n string) *model.TypeRef { return nn(listOf(nn(model.Named(n)))) } // [X!]!
+	optList  = func(n string) *model.TypeRef { return listOf(nn(model.Named(n))) }     // [X!]
+	useLocs  = "Use `locations`."
+	falseDef = func() *model.InputDef {
+		return &model.InputDef{Name: "includeDeprecated", Type: tBoolean, HasDefault: true, Default: false}
+	}
 	typeKinds = []string{"SCALAR", "OBJECT", "INTERFACE", "UNION", "ENUM", "INPUT_OBJECT", "LIST", "NON_NULL"}
 	// October 2016: the seven executable locations.
 	execLocations = []string{"QUERY", "MUTATION", "SUBSCRIPTION", "FIELD", "FRAGMENT_DEFINITION", "FRAGMENT_SPREAD", "INLINE_FRAGMENT"}
